@@ -173,9 +173,9 @@ func (e *descEnv) desc(v ssa.Value, depth int) string {
 	case *ssa.Lookup:
 		return "lookup(" + e.desc(x.X, depth+1) + "," + e.desc(x.Index, depth+1) + ")"
 	case *ssa.MakeMap:
-		return "makemap(" + x.Type().String() + ")"
+		return "makemap:" + x.Name() + "(" + x.Type().String() + ")"
 	case *ssa.MakeChan:
-		return "makechan(" + x.Type().String() + ")"
+		return "makechan:" + x.Name() + "(" + x.Type().String() + ")"
 	case *ssa.FreeVar:
 		// the captured variable of the enclosing function
 		if par := x.Parent().Parent(); par != nil {
